@@ -35,6 +35,8 @@ struct Stamps {
     /// (machine, logical order, virtual time) when a harness protocol reached the barrier
     reached: Vec<(usize, u64, Duration)>,
     passed: Vec<(usize, u64, Duration)>,
+    /// (logical order, requested status) taken immediately before a shutdown request (no await in between)
+    requests: Vec<(u64, Option<u32>)>,
 }
 
 struct Actor<const N: usize> {
@@ -60,6 +62,7 @@ impl<const N: usize> Protocol for Actor<N> {
         match self.behaviour {
             Behaviour::Shutter(ms, status) => {
                 tokio::time::sleep(Duration::from_millis(ms)).await;
+                self.stamps.lock().unwrap().requests.push((self.wire.tick(), status));
                 match status {
                     Some(n) => shutdown.shut_down_with_status(ExitStatus::Status(n)),
                     None => shutdown.shut_down(),
@@ -110,7 +113,7 @@ impl Check for BarrierAndStatus {
         "C13"
     }
     fn rule(&self) -> String {
-        "generated: 0..6 machines on one network, each with a role built from the repository's own protocols and applications (sender = Pci+Ipv4+Udp(+Arp)+SendMessage transmitting right after the barrier; receiver = recording application (+Capture that never completes); idle PingPong pair member, Forward(+Arp), DnsServer+SocketAPI, Tcp only, bare) plus 0..3 harness applications per machine: SlowInit(d) sleeping d before the barrier, Shutter(t, status) requesting a shutdown t after the barrier, NeverReturns, NeverReachesBarrier (at most one per case); timeout none or 1 ms..1 h, all shutdown times pairwise distinct and distinct from the timeout; oracle: (1) no frame is on any network and no application receives anything before every harness application has reached the barrier (logical clock shared by stamps and the frame hook) nor before the longest SlowInit has elapsed, and nothing at all if somebody never reaches it; (2) the returned status is that of the earliest shutdown request made before the timeout, else TimedOut (with a timeout) or Exited (without; only generated with machines that keep no shutdown handle or with a shutter); (3) with a timeout the call returns no later than timeout + 1 s of virtual time, and exactly at the winning shutter's time when there is one. non-trivial: >= 2 machines with a slow initialiser and a sender that transmits right after the barrier, or >= 2 competing shutdowns, or a machine that never finishes / never reaches the barrier. distinct: hash of decoded configuration".into()
+        "generated: 0..6 machines on one network, each with a role built from the repository's own protocols and applications (sender = Pci+Ipv4+Udp(+Arp)+SendMessage transmitting right after the barrier; receiver = recording application (+Capture that never completes); idle PingPong pair member, Forward(+Arp), DnsServer+SocketAPI, Tcp only, bare) plus 0..3 harness applications per machine: SlowInit(d) sleeping d before the barrier, Shutter(t, status) requesting a shutdown t after the barrier, NeverReturns, NeverReachesBarrier (at most one per case); timeout none or 1 ms..1 h, shutdown times distinct from the timeout, pairwise distinct or (1/4 of the cases) several in the same instant, in 1/10 of the cases 18 requests with pairwise different statuses in one instant; oracle: (1) no frame is on any network and no application receives anything before every harness application has reached the barrier (logical clock shared by stamps and the frame hook) nor before the longest SlowInit has elapsed, and nothing at all if somebody never reaches it; (2) the returned status is that of the earliest shutdown request made before the timeout (within one instant: the request issued first, by logical stamps taken immediately before each request), else TimedOut (with a timeout) or Exited (without; only generated with machines that keep no shutdown handle or with a shutter); (3) with a timeout the call returns no later than timeout + 1 s of virtual time, and exactly at the winning shutter's time when there is one. non-trivial: >= 2 machines with a slow initialiser and a sender that transmits right after the barrier, or >= 2 competing shutdowns, or a machine that never finishes / never reaches the barrier. distinct: hash of decoded configuration".into()
     }
     fn assumptions(&self) -> Vec<String> {
         vec![
@@ -122,7 +125,10 @@ impl Check for BarrierAndStatus {
         200
     }
     fn run(&self, e: &mut Entropy, ctx: &mut Ctx) -> Result<(), Failure> {
-        let nm = e.weighted(&[1, 2, 3, 3, 2, 2, 1]);
+        // crowd: many shutdown requests with different statuses in the same instant (more than the shutdown channel holds)
+        let crowd = e.chance(1, 10);
+        let same_instant = crowd || e.chance(1, 4);
+        let nm = if crowd { 6 } else { e.weighted(&[1, 2, 3, 3, 2, 2, 1]) };
         let lift_forward_arp = e.chance(1, 16);
         // ARP is used by all senders and receivers of a case or by none (a sender with ARP needs a receiver that answers)
         let arp_case = e.chance(1, 3);
@@ -151,15 +157,19 @@ impl Check for BarrierAndStatus {
             used_times.push(t);
             t
         };
+        let crowd_t = 1 + e.choose(500) as u64;
+        let mut serial = 0u32;
         for _ in 0..nm {
-            let k = e.weighted(&[3, 4, 2, 1]);
+            let k = if crowd { 3 } else { e.weighted(&[3, 4, 2, 1]) };
             let mut v = vec![];
             for _ in 0..k {
-                let b = match e.weighted(&[5, 5, 1, 1]) {
+                let b = match if crowd { 1 } else { e.weighted(&[5, 5, 1, 1]) } {
                     0 => Behaviour::SlowInit(*e.pick(&[0u64, 1, 5, 50, 700, 5000])),
                     1 => {
-                        let t = fresh_time(e, 1000);
-                        Behaviour::Shutter(t, if e.bool() { Some(1 + e.choose(200) as u32) } else { None })
+                        // statuses are pairwise distinct so that the winner can be told apart
+                        serial += 1;
+                        let t = if crowd || (same_instant && e.chance(2, 3)) { crowd_t } else { fresh_time(e, 1000) };
+                        Behaviour::Shutter(t, if crowd || e.bool() { Some(serial * 1000 + e.choose(200) as u32) } else { None })
                     }
                     2 => Behaviour::NeverReturns,
                     _ => {
@@ -306,7 +316,14 @@ impl Check for BarrierAndStatus {
         }
         // (2) status, (3) return time
         let release = Duration::from_millis(slow_max);
-        let first_shutter = shutters.iter().min_by_key(|s| s.0).copied();
+        // the first request: the earliest instant; within one instant the order of the requests themselves (stamps
+        // taken right before each request on the single-threaded runtime)
+        let tmin = shutters.iter().map(|s| s.0).min();
+        let first_shutter: Option<(u64, Option<u32>)> = tmin.map(|t| {
+            let tied: Vec<Option<u32>> = shutters.iter().filter(|s| s.0 == t).map(|s| s.1).collect();
+            let by_stamp = st.requests.iter().filter(|r| tied.contains(&r.1)).min_by_key(|r| r.0).map(|r| r.1);
+            (t, by_stamp.unwrap_or(tied[0]))
+        });
         let expected: (ExitStatus, Option<Duration>) = if never_reaches {
             (ExitStatus::TimedOut, timeout_ms.map(Duration::from_millis))
         } else {
@@ -317,7 +334,8 @@ impl Check for BarrierAndStatus {
                 (None, None) => (ExitStatus::Exited, None),
             }
         };
-        ensure!(status == expected.0, "exit_status", "wrong_status", "returned {:?}, expected {:?} (shutters {:?}, barrier release at {} ms, timeout {:?})", status, expected.0, shutters, slow_max, timeout_ms);
+        let tied_first = tmin.map(|t| shutters.iter().filter(|s| s.0 == t).count()).unwrap_or(0);
+        ensure!(status == expected.0, "exit_status", if tied_first > 16 { "wrong_status_with_more_than_16_simultaneous_requests" } else { "wrong_status" }, "returned {:?}, expected {:?} ({} requests in the first instant; shutters {:?}, barrier release at {} ms, timeout {:?})", status, expected.0, tied_first, shutters, slow_max, timeout_ms);
         if let Some(to) = timeout_ms {
             ensure!(elapsed <= Duration::from_millis(to) + Duration::from_secs(1), "return_time", "later_than_timeout_plus_1s", "returned after {:?} with a timeout of {} ms", elapsed, to);
         }
@@ -330,6 +348,12 @@ impl Check for BarrierAndStatus {
         ctx.nontrivial = (slow_machines >= 2 && senders >= 1 && !frames.is_empty()) || shutters.len() >= 2 || never_reaches || behaviours.iter().flatten().any(|b| *b == Behaviour::NeverReturns);
         if shutters.len() >= 2 {
             ctx.class("competing_shutdowns");
+        }
+        if tied_first >= 2 && status != ExitStatus::TimedOut {
+            ctx.class("first_request_tied_in_one_instant");
+        }
+        if tied_first > 16 && status != ExitStatus::TimedOut {
+            ctx.class("more_than_16_requests_in_one_instant");
         }
         if never_reaches {
             ctx.class("never_reaches_barrier");
